@@ -238,6 +238,15 @@ def generate(ctx):
             cases.append(mk_case(big, chunks))
             metas.append(Meta(name="corrupt", payload=None, tokens=None, actual=None, native=False, cfg=dict(big),
                               maxchunk=max(len(c) for c in chunks), framing="?", chunking=cname, wirebody=bytes(s), complete=True))
+    # 4b. output that ends near a multiple of the output buffer (F21: the tail stays inside the decoder when the last input byte
+    #     is consumed while the buffer is full), every format, whole and cut
+    for base in (8192, 16384):
+        for k in ((-2, -1, 0, 1, 2, 3, 7, 100, 257, 258, 259, 300) if not th else tuple(range(-3, 300, 7))):
+            for mk in ("zeros", "text"):
+                n = base + k
+                p = (b"\x00" * n) if mk == "zeros" else (b"abcdefghij" * 3000)[:n]
+                for tokens, actual in ((["deflate"], ["raw"]), (["gzip"], ["gzip"]), (["lzma"], ["lzma"]), (["deflate", "gzip"], ["raw", "gzip"])):
+                    add_cases(cases, metas, ctx, "tail:" + mk, p, tokens, actual, big, framings=("cl",), single_cut_limit=0, n_random=1, one_byte_limit=0)
     # 5. bombs: small limits, nested streams, lzma
     zeros = b"\x00" * (4 << 20 if th else 1 << 20)
     for tokens, actual in ((["gzip"], ["gzip"]), (["gzip", "gzip"], ["gzip", "gzip"]), (["lzma"], ["lzma"]), (["gzip", "lzma"], ["gzip", "lzma"]),
@@ -267,11 +276,43 @@ def fixed_witness_case():
 
 
 def f12_witness_case():
-    """F12: Content-Encoding: deflate, body = zlib stream of 'hello, world\\n'*8, cut after the first 2 bytes."""
+    """F12: Content-Encoding: deflate, body = zlib stream of 'hello, world\\n'*8 (24 bytes), cut after the first 3 bytes
+    (the same run as Example C07_refuted_F12 in coq/Props/Properties_C07.v)."""
     p = b"hello, world\n" * 8
     z = enc("zlib", p)
     head = b"HTTP/1.1 200 OK\r\nContent-Encoding: deflate\r\nContent-Length: %d\r\n\r\n" % len(z)
-    return mk_case(dict(bomb=100000000), [head, z[:2], z[2:]]), p
+    return mk_case(dict(bomb=100000000), [head, z[:3], z[3:]]), p
+
+
+# the recorded decoder calls of the F12 witness as they appear in Example C07_refuted_F12 (zlib 1.3); a different zlib may
+# consume different amounts before failing, which is reported as a note, not as a violation
+F12_RECS = ("N:-15:0;I:3:8192:789ccb:3:0:-;I:21:8192:48cdc9c9:2:-3:-;E;N:-15:0;I:21:8192:48cdc9c9:5:-3:-;E;N:47:0;"
+            "I:21:8192:48cdc9c9:2:-3:-;E;N:-15:0;I:21:8192:48cdc9c9:5:-3:-;E")
+
+
+def f21_witness_case():
+    """F21: Content-Encoding: deflate, body = raw deflate of 8195 zero bytes, delivered whole: 8192 bytes come out
+    (Example C07_refuted_tail_loss)."""
+    p = b"\x00" * 8195
+    z = enc("raw", p)
+    head = b"HTTP/1.1 200 OK\r\nContent-Encoding: deflate\r\nContent-Length: %d\r\n\r\n" % len(z)
+    return mk_case(dict(bomb=100000000), [head, z]), p
+
+
+def f22_witness_case():
+    """F22: bomb limit 32 MiB + 4000 (> (ratio-1) output buffers), Content-Encoding: gzip, gzip. A 213-byte two-layer stream that
+    inflates to 32 MiB with the OUTER trailer corrupted, then 16150 bytes 0xff in 5-byte pieces: the first layer ends in
+    passthrough, every further piece is delivered although the bomb test refuses each one; at the end the message has
+    delivered more than max(limit, 2048 * message_len) + one buffer."""
+    bomb = 32 * 1024 * 1024 + 4000
+    co = zlib.compressobj(9, zlib.DEFLATED, 31)
+    mid = b"".join(co.compress(b"\x00" * (1 << 20)) for _ in range(32)) + co.flush()
+    outer = enc("gzip", mid, 9)
+    bad = outer[:-8] + b"\x00" * 8
+    garbage = b"\xff" * 16150
+    head = b"HTTP/1.1 200 OK\r\nContent-Encoding: gzip, gzip\r\n\r\n"
+    chunks = [head, bad] + [garbage[i:i + 5] for i in range(0, len(garbage), 5)]
+    return mk_case(dict(bomb=bomb), chunks), bomb, max(len(bad), len(head))
 
 
 # ---------------------------------------------------------------- running
@@ -384,6 +425,11 @@ def oracle(meta, ob, ex, mex):
             return "ok", ""
         if d["restart"] != "0":
             return "FAIL-restart-on-valid-stream", "trace point 3 fired on a stream valid for the announced coding"
+        if m.get("tail") == "1" and "raw" in meta.actual[:layers]:
+            # premise of the faithfulness oracle (finding F21): no decoder call filled the buffer while consuming all its input.
+            # Formats with a trailer (gzip, zlib, lzma with end marker) cannot lose output that way and stay inside the premise.
+            good = tot == len(exp) and crc == (zlib.crc32(exp) & 0xffffffff)
+            return ("F21" if not good else "ok"), "output pending in the decoder at a full buffer"
         if tot != len(exp) or crc != (zlib.crc32(exp) & 0xffffffff):
             return "FAIL-faithful", "delivered %d bytes crc %08x, expected %d bytes crc %08x (%d layers)" % (
                 tot, crc, len(exp), zlib.crc32(exp) & 0xffffffff, layers)
@@ -434,6 +480,7 @@ def check(ctx):
     # (ii) property oracles on the library's output
     verdicts = {}
     f12 = []
+    f21 = []
     nfail = 0
     for i, (mt, ob, ex, mex) in enumerate(zip(metas, obs, extra, mextra)):
         if not ob.startswith("ev="):
@@ -442,6 +489,8 @@ def check(ctx):
         verdicts[v] = verdicts.get(v, 0) + 1
         if v == "F12":
             f12.append(i)
+        elif v == "F21":
+            f21.append(i)
         elif v.startswith("FAIL"):
             nfail += 1
             if nfail <= 3:
@@ -454,23 +503,59 @@ def check(ctx):
         vf.violation(ctx, "fixed-witness", {"kind": "regression-of-fixed-finding", "commit": "a3d1a80", "case": cases[-1], "implementation": obs[-1],
                                             "detail": "delivered %s > %d: the refused output block is delivered again" % (wd.get("tot"), FIXED_WITNESS_MAX)})
     ctx.notes.append("fixed witness (a3d1a80): %d wire bytes one per call -> delivered %s (limit %d)" % (wlen, wd.get("tot"), FIXED_WITNESS_MAX))
-    # (iii) F12: the witness replayed; listed while still exhibited
-    known = vf.known_for("C07")
-    f12case, f12payload = f12_witness_case()
-    o2, e2, l2, m2, me2, cr2 = correspond(ctx, [f12case], tag="f12")
-    d2 = fields(o2[0]) if o2 else {}
-    exhibited = bool(o2) and d2.get("restart") == "1" and fields(me2[0]).get("late") == "1" and \
-        (int(d2.get("tot", "0")) != len(f12payload) or int(d2.get("crc", "0"), 16) != (zlib.crc32(f12payload) & 0xffffffff))
-    if o2 and o2[0] != m2[0]:
-        vf.violation(ctx, "f12-witness", {"kind": "implementation-differs-from-model", "case": f12case, "implementation": o2[0], "model": m2[0]})
-    listed = [k for k in known if k["id"] == "F12"]
-    if exhibited or f12:
-        if listed:
-            ctx.known.append("id=F12 failure=%s hook=3 witness_delivered=%s expected=%d also_exhibited_by=%d generated cases" % (
-                F12_FAILURE, d2.get("tot"), len(f12payload), len(f12)))
+    # (iii) the witnesses of the known findings, replayed on the library and the model; listed only while still exhibited
+    known = {k["id"]: k for k in vf.known_for("C07")}
+
+    def finding(fid, exhibited, case, impl, text, detail):
+        if not exhibited:
+            if fid in known:
+                ctx.notes.append("known finding %s is no longer exhibited by its witness" % fid)
+            return
+        if fid in known:
+            ctx.known.append("id=%s %s" % (fid, text))
         else:
-            vf.violation(ctx, "F12", {"kind": "property-oracle-failed", "oracle": "faithful", "case": f12case, "implementation": o2[0] if o2 else None,
-                                      "detail": "restart after earlier chunks were consumed loses output; not listed as a known finding"})
+            vf.violation(ctx, fid, {"kind": "property-oracle-failed", "oracle": "faithful" if fid != "F22" else "bound", "case": case,
+                                    "implementation": impl, "detail": detail + " (not listed as a known finding)"})
+
+    f12case, f12payload = f12_witness_case()
+    f21case, f21payload = f21_witness_case()
+    f22case, f22bomb, f22maxchunk = f22_witness_case()
+    wcases = [f12case, f21case, f22case]
+    o2, e2, l2, m2, me2, cr2 = correspond(ctx, wcases, tag="witness")
+    if cr2:
+        vf.report_crash(ctx, "S-decomp-witness", wcases, cr2)
+    else:
+        for k, nm in enumerate(("F12", "F21", "F22")):
+            if o2[k] != m2[k]:
+                vf.violation(ctx, "witness-" + nm, {"kind": "implementation-differs-from-model", "suite": "S-decomp", "case": wcases[k],
+                                                    "implementation": o2[k], "model": m2[k]})
+        d12, d21, d22 = fields(o2[0]), fields(o2[1]), fields(o2[2])
+
+        def same(dd, payload):
+            return int(dd.get("tot", "-1")) == len(payload) and int(dd.get("crc", "0"), 16) == (zlib.crc32(payload) & 0xffffffff)
+        ex12 = d12.get("restart") == "1" and fields(me2[0]).get("late") == "1" and not same(d12, f12payload)
+        finding("F12", ex12 or bool(f12), f12case, o2[0],
+                "failure=%s hook=3 witness_delivered=%s expected=%d also_exhibited_by=%d generated cases" % (
+                    F12_FAILURE, d12.get("tot"), len(f12payload), len(f12)),
+                "restart after earlier chunks were consumed loses output")
+        recs12 = ";".join(x for x in l2[0][1:].split(";") if x[:1] in "NIEADF" and not x.startswith("A:"))
+        if recs12 != F12_RECS:
+            ctx.notes.append("the decoder calls recorded for the F12 witness differ from the ones quoted in Example C07_refuted_F12 "
+                             "(another zlib version?): " + recs12[:300])
+        ex21 = d21.get("restart") == "0" and fields(me2[1]).get("tail") == "1" and not same(d21, f21payload)
+        finding("F21", ex21 or bool(f21), f21case, o2[1],
+                "failure=tail-lost-at-full-buffer witness_delivered=%s expected=%d also_exhibited_by=%d generated cases" % (
+                    d21.get("tot"), len(f21payload), len(f21)),
+                "raw deflate output pending inside zlib when the input ends at a full buffer is never fetched")
+        tot22, sml22 = int(d22.get("tot", "0")), int(d22.get("sml", "0"))
+        tb22 = tight_bound(dict(bomb=f22bomb), sml22, f22maxchunk)
+        if tot22 > proved_bound(dict(bomb=f22bomb), sml22, f22maxchunk):
+            vf.violation(ctx, "F22-bound", {"kind": "property-oracle-failed", "oracle": "FAIL-bound", "case": f22case, "implementation": o2[2][:400],
+                                            "detail": "delivered %d > proved bound %d" % (tot22, proved_bound(dict(bomb=f22bomb), sml22, f22maxchunk))})
+        finding("F22", tot22 > tb22, f22case, o2[2][:400],
+                "failure=passthrough-delivers-after-bomb-error witness_delivered=%d property_text_bound=%d proved_bound=%d" % (
+                    tot22, tb22, proved_bound(dict(bomb=f22bomb), sml22, f22maxchunk)),
+                "delivered %d > max(limit, 2048*message_len) + one block = %d" % (tot22, tb22))
     ctx.cov["oracle_verdicts"] = verdicts
     vf.note_distinct(ctx, set(classify(mt, ob, mex) for mt, ob, mex in zip(metas, obs, mextra) if ob.startswith("ev=")))
     for i in (0, len(cases) // 3, 2 * len(cases) // 3):
